@@ -132,7 +132,9 @@ impl FreezerFiles {
 
         let data_size = data.len();
         // open a new file
-        if self.head.bytes + data_size as u64 > self.max_size {
+        // an empty item never needs a new data file (and an index entry pointing at offset 0
+        // of a new file could not be told from a lost write when reopening)
+        if data_size > 0 && self.head.bytes + data_size as u64 > self.max_size {
             let head_id = self.head_id;
             let next_id = head_id + 1;
             let new_head_file = self.open_truncated(next_id)?;
